@@ -37,7 +37,7 @@ var srcKinds = []string{"regular", "missing", "via-symlink"}
 var dstKinds = []string{
 	"missing", "existing-shorter", "existing-longer", "same-path", "dot-slash-spelling", "dotdot-spelling",
 	"symlink-to-source", "hardlink-of-source", "is-a-directory", "parent-missing", "parent-is-a-file",
-	"other-mount-missing", "other-mount-existing", "dangling-symlink",
+	"other-mount-missing", "other-mount-existing", "dangling-symlink", "symlink-to-other-file", "symlink-on-other-mount-to-source",
 }
 
 type scenario struct {
@@ -87,6 +87,8 @@ func build(s scenario) (src, dst string, steps []func(fsops)) {
 	case 1:
 	case 2:
 		steps = append(steps, func(f fsops) { f.write("W/real-src.bin", data); f.symlink("W/real-src.bin", "W/src.bin") })
+	case 3:
+		steps = append(steps, func(f fsops) { f.mkdir("W/src.bin") })
 	}
 	srcTarget := "W/src.bin"
 	if s.srcKind == 2 {
@@ -129,6 +131,12 @@ func build(s scenario) (src, dst string, steps []func(fsops)) {
 	case "other-mount-existing":
 		dst = "M/dst.bin"
 		steps = append(steps, func(f fsops) { f.write("M/dst.bin", content(123, 4)) })
+	case "symlink-to-other-file":
+		dst = "W/link.bin"
+		steps = append(steps, func(f fsops) { f.write("W/other.bin", content(321, 5)); f.symlink("W/other.bin", "W/link.bin") })
+	case "symlink-on-other-mount-to-source":
+		dst = "M/alias.bin"
+		steps = append(steps, func(f fsops) { f.symlink(srcTarget, "M/alias.bin") })
 	case "dangling-symlink":
 		dst = "W/dangling.bin"
 		steps = append(steps, func(f fsops) { f.symlink("W/nowhere.bin", "W/dangling.bin") })
@@ -246,7 +254,7 @@ func (w *world) main() {
 	f.Trace = nil
 	// "removes the source only after the destination is complete"
 	f.OnCall = func(idx int, c *sos.Call) {
-		if c.Op == "unlink" && c.Path == sp && srcInode != nil {
+		if c.Op == "unlink" && c.Path == sp && srcInode != nil && srcInode.IsRegular() {
 			d := f.Lookup(dp)
 			if d == nil || !bytes.Equal(d.Data, snap) {
 				w.violate("source-removed-before-destination-complete", fmt.Sprintf("unlink(%s) issued at call %d while the destination holds %s, source held %s", sp, idx, digest(dataOf(d)), digest(snap, true)))
@@ -281,6 +289,9 @@ func (w *world) main() {
 
 	op := []string{"CopyFile", "MoveFile"}[s.op]
 	switch {
+	case srcInode != nil && !srcInode.IsRegular():
+		// the source is a directory: the property speaks about files; only the
+		// agreement with the real file system (below) and "no panic" apply
 	case srcInode == nil:
 		if err == nil {
 			w.violate("nil-for-missing-source", op+" returned nil although the source does not exist")
